@@ -84,7 +84,7 @@ def tool_error(msg, out=""):
 
 
 # ---------------------------------------------------------------- build steps
-def build_harness(race=False):
+def build_harness(race=False, cover=False):
     os.makedirs(WORK, exist_ok=True)
     # module file outside the source dir: go.sum is the repository's, the replace points at the tree under test
     gm = open(os.path.join(HARNESS_SRC, "go.mod")).read().replace("=> /repo", "=> " + REPO)
@@ -97,6 +97,10 @@ def build_harness(race=False):
     if race:
         cmd.append("-race")
         target = HARNESS_BIN + "_race"
+    if cover:
+        # statement coverage of the library under the harness run (thorough tier): evidence for the tie, not a verdict
+        cmd += ["-cover", "-coverpkg=verif/harness,github.com/M2MGateway/go-smpp/..."]
+        target = HARNESS_BIN + "_cover"
     rc, out = sh(cmd + ["-o", target, "."], cwd=HARNESS_SRC, timeout=900)
     if rc != 0:
         tool_error("harness does not build against the working tree of " + REPO, out)
@@ -271,8 +275,15 @@ def check(pid, tier):
         regen(cfg.get("gen", []))
         # direct property tests + case emission (implementation side)
         hb = HARNESS_BIN
+        cenv = None
+        covdir = os.path.join(workdir, "cov")
+        if tier == "thorough" and not cfg.get("race") and not cfg.get("no_cover"):
+            hb = build_harness(cover=True)
+            sh(["rm", "-rf", covdir])
+            os.makedirs(covdir, exist_ok=True)
+            cenv = dict(ENV, GOCOVERDIR=covdir)
         rc, out = sh([hb, "corr", pid, tier, str(seed), workdir],
-                     timeout=cfg.get("corr_timeout", 1500 if tier == "quick" else 7200))
+                     timeout=cfg.get("corr_timeout", 1500 if tier == "quick" else 7200), env=cenv)
         if rc != 0:
             tool_error("harness corr failed for " + pid, out)
         result = json.load(open(os.path.join(workdir, "result.json")))
@@ -388,6 +399,25 @@ def check(pid, tier):
             obj["failing_input"] = next(iter(unknown_fail.values()))[0]
         violations.append((obj, not found_input))
 
+    # ---- statement coverage of the library by this run's harness inputs (thorough tier)
+    impl_cov = None
+    if tier == "thorough" and os.path.isdir(os.path.join(workdir, "cov")) and os.listdir(os.path.join(workdir, "cov")):
+        covdir = os.path.join(workdir, "cov")
+        rc1, pout = sh(["go", "tool", "covdata", "percent", "-i=" + covdir])
+        rc2, fout = sh(["go", "tool", "covdata", "func", "-i=" + covdir])
+        pk = {}
+        for line in pout.splitlines():
+            m = re.match(r"\s*(github.com/M2MGateway/go-smpp\S*)\s+coverage:\s+([0-9.]+)% of statements", line)
+            if m:
+                pk[m.group(1).replace("github.com/M2MGateway/go-smpp", "smpp") or "smpp"] = float(m.group(2))
+        zero = []
+        for line in fout.splitlines():
+            m = re.match(r"(github.com/M2MGateway/go-smpp/\S+?):(\d+):\s+(\S+)\s+([0-9.]+)%", line)
+            if m and float(m.group(4)) == 0.0 and any(("/" + q + "/") in m.group(1) for q in cfg.get("cover_pkgs", [])):
+                zero.append("%s:%s" % (m.group(1).split("go-smpp/")[1], m.group(3)))
+        impl_cov = {"statement_coverage_percent_by_package": pk, "functions_never_entered": zero[:80],
+                    "note": "library statements executed by this run's harness inputs (go build -cover); evidence about the tie, not a verdict"}
+
     # ---- evidence
     n_obl, names = count_statements(cfg["proof_files"])
     discharged = n_obl if mrc == 0 and not bad_words else 0
@@ -426,6 +456,7 @@ def check(pid, tier):
             "notes": result.get("notes", []) + notes,
             "tree": th,
             "coqchk": coqchk_report,
+            "implementation_coverage": impl_cov,
         },
         "assumptions": cfg.get("assumptions", []),
         "wall_s": round(time.time() - t0, 2),
